@@ -80,10 +80,19 @@ def _unknown_name_specs(ctx, rng):
                 good = F(rng.choice(["named", "sub"]), rng.choice(w.modules))
                 badf = F(rng.choice(["named", "sub"]), bad)
                 verb, d, exc = rng.choice(VERBS), rng.choice(DIRS), rng.random() < 0.5
+                bads = [badf]
                 if rng.random() < 0.5:
-                    ep.eval(mk_rule(verb, d, exc, [badf], [good]))
+                    # the unknown name in a BATCH with existing modules - the module it was derived from (for the
+                    # 'one level too deep' spelling: its own existing parent), that module's parent, or any other one;
+                    # in either order.  Every listed name is looked up, whatever stands next to it.
+                    mate = rng.choice([list(m), list(m[:-1]) or list(m), list(rng.choice(w.modules))])
+                    if tuple(mate) in known:
+                        matef = F(badf["kind"], mate)          # (one fluent call gives one kind per side)
+                        bads = [badf, matef] if rng.random() < 0.5 else [matef, badf]
+                if rng.random() < 0.5:
+                    ep.eval(mk_rule(verb, d, exc, bads, [good]))
                 else:
-                    ep.eval(mk_rule(verb, d, exc, [good], [badf]))
+                    ep.eval(mk_rule(verb, d, exc, [good], bads))
                 if rng.random() < 0.2:
                     ep.eval(mk_rule("should_not", d, False, [badf], [], any_=True))
         specs.append(ep.spec)
